@@ -116,9 +116,9 @@ func (l *loopInfo) mustOnBackPaths(isP func(ssa.Instruction) bool) bool {
 }
 
 type loopVerdict struct {
-	ok   bool
-	how  string
-	why  string
+	ok  bool
+	how string
+	why string
 }
 
 type loopEngine struct {
